@@ -187,15 +187,29 @@ def run(ctx):
                    'f16': nprng.randn(m).astype(np.float16)}
     order = list(ids)
     rng.shuffle(order)
+    staged = None
     with sq.SQLiteFederatedDataBuilder(path) as b:
-      b.add_many([(cid, data[cid]) for cid in order])
+      half = len(order) // 2
+      b.add_many([(cid, data[cid]) for cid in order[:half]])
+      # what add_many has returned is in the file: a reader opened now (between two stages) sees the first stage
+      try:
+        staged = sorted(sq.SQLiteFederatedData.new(path).client_ids())
+      except Exception as ex:  # pylint: disable=broad-except
+        staged = f'{type(ex).__name__}: {str(ex)[:80]}'
+      b.add_many([(cid, data[cid]) for cid in order[half:]])
     fd = sq.SQLiteFederatedData.new(path)
     ok_ids = sorted(fd.client_ids()) == sorted(ids) and fd.num_clients() == len(ids)
     sizes = dict(fd.client_sizes())
     ok_sizes = all(sizes[c] == len(data[c]['y']) for c in ids)
     problems = []
+    if staged != sorted(order[:len(order) // 2]):
+      problems.append(f'a reader opened after the first add_many (builder still open) sees {staged if isinstance(staged, str) else len(staged)} instead of the {len(order) // 2} clients written so far')
     for cid in ids:
-      first = fd.get_client(cid).raw_examples
+      try:
+        first = fd.get_client(cid).raw_examples
+      except Exception as ex:  # pylint: disable=broad-except
+        problems.append(f'client {cid!r}: get_client fails: {type(ex).__name__}: {str(ex)[:80]}')
+        continue
       if project(dict(first)) != project(data[cid]):
         problems.append(f'client {cid!r}: examples differ after the round trip')
       # a caller editing what it got back must not change what later reads return
